@@ -134,3 +134,126 @@ package asn1
 //@ func invalidLength
 //@   ensures (0 <= offset && 0 <= length) ==> (result <==> (length > 0x7fffffffffffffff - offset || offset + length > sliceLength))
 //@   terminates
+
+// ---------------------------------------------------------------- marshal.go (leaf encoders)
+
+//@ func (byteEncoder).Len
+//@   ensures result == 1
+//@   terminates
+//@ func (byteEncoder).Encode
+//@   requires len(dst) >= 1
+//@   ensures  dst[0] == uint8(c)
+//@   modifies elems(dst, 0, 1)
+//@   terminates
+//@ func (bytesEncoder).Len
+//@   ensures result == len(b)
+//@   terminates
+//@ func (bytesEncoder).Encode
+//@   requires len(dst) >= len(b)
+//@   ensures  forall(k, 0, len(b), dst[k] == old(b[k]))
+//@   modifies elems(dst, 0, len(b))
+//@   terminates
+//@ func (stringEncoder).Len
+//@   ensures result == len(s)
+//@   terminates
+//@ func (stringEncoder).Encode
+//@   requires len(dst) >= len(s)
+//@   ensures  forall(k, 0, len(s), dst[k] == s[k])
+//@   modifies elems(dst, 0, len(s))
+//@   terminates
+
+// INTEGER (X.690 8.3): the minimal two's complement encoding, big-endian.
+//@ func (int64Encoder).Len
+//@   loop 1 invariant 1 <= n && n <= 8 && i == old(i) >> uint(8*(n-1)) && (n >= 2 ==> old(i) >> uint(8*(n-2)) > 127)
+//@   loop 1 decreases 8 - n
+//@   loop 2 invariant 1 <= n && n <= 8 && i == old(i) >> uint(8*(n-1)) && (n >= 2 ==> old(i) >> uint(8*(n-2)) > 127 || old(i) >> uint(8*(n-2)) < -128)
+//@   loop 2 invariant i <= 127
+//@   loop 2 decreases 8 - n
+//@   ensures result == spec.der_int_len(int64(i))
+//@   terminates
+
+//@ func (int64Encoder).Encode
+//@   requires len(dst) >= spec.der_int_len(int64(i))
+//@   loop 1 invariant 0 <= j && j <= n && forall(k, 0, j, dst[k] == spec.der_int_byte(int64(i), k))
+//@   ensures  forall(k, 0, spec.der_int_len(int64(i)), dst[k] == spec.der_int_byte(int64(i), k))
+//@   modifies elems(dst)
+//@   terminates
+
+//@ func lengthLength
+//@   requires i >= 0
+//@   loop 1 invariant 1 <= numBytes && numBytes <= 8 && i == old(i) >> uint(8*(numBytes-1)) && i >= 0 && (numBytes >= 2 ==> old(i) >> uint(8*(numBytes-2)) > 255)
+//@   loop 1 decreases i
+//@   ensures 1 <= numBytes && numBytes <= 8 && i >> uint(8*(numBytes-1)) <= 255 && (numBytes >= 2 ==> i >> uint(8*(numBytes-2)) > 255)
+//@   ensures numBytes == spec.len_octets(i)
+//@   terminates
+
+//@ func base128IntLength
+//@   loop 1 invariant 0 <= l && l <= 9 && i == n >> uint(7*l) && (l >= 1 ==> n > 0 && n >> uint(7*(l-1)) > 0)
+//@   loop 1 decreases i
+//@   ensures n >= 0 ==> result == spec.b128_len(n)
+//@   ensures n < 0 ==> result == 0
+//@   terminates
+
+// BIT STRING (X.690 8.6): initial octet = number of unused bits in the last octet.
+//@ func (bitStringEncoder).Len
+//@   ensures result == len(b.Bytes) + 1
+//@   terminates
+//@ func (bitStringEncoder).Encode
+//@   requires len(dst) >= len(b.Bytes) + 1 && b.BitLength >= 0 && sep(dst, b.Bytes)
+//@   ensures  dst[0] <= 7 && (int(dst[0]) + b.BitLength) % 8 == 0
+//@   ensures  forall(k, 0, len(b.Bytes), dst[k+1] == old(b.Bytes[k]))
+//@   modifies elems(dst, 0, len(b.Bytes) + 1)
+//@   terminates
+
+// Tag and length header. For the single-octet identifier form (tag number < 31) the header
+// accepted in strict mode is exactly the canonical one of X.690 8.1.2/8.1.3/10.1; the value
+// of a long-form length is below 2^31 (the decoder's stated limit).
+//@ pred hdr(bytes, initOffset) = bytes[initOffset:]
+//@ func parseTagAndLength
+//@   requires 0 <= initOffset
+//@   loop 1 invariant 0 <= i && i <= numBytes && i <= 4 && 1 <= numBytes && numBytes <= 127 && offset <= len(bytes) && offset - i >= initOffset + 2
+//@   loop 1 invariant 0 <= ret.length && ret.length < 1<<31 && (i >= 1 ==> ret.length >= 1 << uint(8*(i-1)))
+//@   loop 1 invariant ret.length == int(spec.be_val(seq(bytes[offset-i:]), i))
+//@   loop 1 invariant ret.tag == int(bytes[initOffset] & 0x1f) || bytes[initOffset] & 0x1f == 0x1f
+//@   loop 1 invariant ret.class == int(bytes[initOffset] >> 6) && (ret.isCompound <==> bytes[initOffset] & 0x20 == 0x20)
+//@   loop 1 invariant bytes[initOffset] & 0x1f != 0x1f ==> offset - i == initOffset + 2
+//@   loop 1 lemma spec.be_val_step(seq(bytes[offset-i:]), i)
+//@   ensures err == nil ==> initOffset < offset && offset <= len(bytes) && 0 <= ret.length && ret.length < 1<<31 && 0 <= ret.tag
+//@   ensures err == nil ==> ret.class == int(bytes[initOffset] >> 6) && (ret.isCompound <==> bytes[initOffset] & 0x20 == 0x20)
+//@   ensures err == nil && bytes[initOffset] & 0x1f != 0x1f ==> ret.tag == int(bytes[initOffset] & 0x1f)
+//@   ensures [canonical] !AllowPermissiveParsing && err == nil && bytes[initOffset] & 0x1f != 0x1f ==> spec.der_hdr_canon(seq(hdr(bytes, initOffset))) && offset == initOffset + spec.der_hdrlen(seq(hdr(bytes, initOffset))) && ret.length == spec.der_bodylen(seq(hdr(bytes, initOffset)))
+//@   ensures [hightag] !AllowPermissiveParsing && err == nil && bytes[initOffset] & 0x1f == 0x1f ==> ret.tag >= 31 && bytes[initOffset+1] != 0x80
+//@   terminates
+
+// Length octets of the long form: big-endian, lengthLength(i) octets (X.690 8.1.3.5).
+//@ func appendLength
+//@   requires i >= 0
+//@   loop 1 invariant 0 <= n && n <= 8 && len(dst) == len(old(dst)) + (spec.len_octets(i) - n) && spec.len_octets(i) <= 8 && n <= spec.len_octets(i)
+//@   loop 1 invariant forall(k, 0, len(old(dst)), dst[k] == old(dst[k]))
+//@   loop 1 invariant forall(k, 0, spec.len_octets(i) - n, dst[len(old(dst)) + k] == spec.be_byte(i, spec.len_octets(i) - 1 - k))
+//@   loop 1 lemma spec.be_byte_def(i, n - 1)
+//@   loop 1 decreases n
+//@   ensures len(result) == len(dst) + spec.len_octets(i)
+//@   ensures forall(k, 0, len(dst), result[k] == old(dst[k]))
+//@   ensures forall(k, 0, spec.len_octets(i), result[len(dst) + k] == spec.be_byte(i, spec.len_octets(i) - 1 - k))
+//@   modifies elems(dst, len(dst), cap(dst))
+//@   terminates
+
+// Minimal base-128 encoding (X.690 8.19.2): what is appended decodes to n and has no
+// leading 0x80 octet.
+//@ func appendBase128Int
+//@   requires n >= 0
+//@   loop 1 invariant -1 <= i && i < l && l == spec.b128_len(n) && len(dst) == len(old(dst)) + (l - 1 - i)
+//@   loop 1 invariant forall(k, 0, len(old(dst)), dst[k] == old(dst[k]))
+//@   loop 1 invariant forall(k, 0, l - 1 - i, dst[len(old(dst)) + k] == spec.b128_digit(n, l - 1 - k) | ite(k == l - 1, uint8(0), uint8(0x80)))
+//@   loop 1 lemma spec.b128_digit_def(n, i)
+//@   loop 1 decreases i + 1
+//@   ensures len(result) == len(dst) + spec.b128_len(n)
+//@   ensures forall(k, 0, len(dst), result[k] == old(dst[k]))
+//@   ensures forall(k, 0, spec.b128_len(n), result[len(dst) + k] == spec.b128_digit(n, spec.b128_len(n) - 1 - k) | ite(k == spec.b128_len(n) - 1, uint8(0), uint8(0x80)))
+//@   modifies elems(dst, len(dst), cap(dst))
+//@   terminates
+
+//@ func makeObjectIdentifier
+//@   ensures err == nil <==> (len(oid) >= 2 && oid[0] <= 2 && (oid[0] >= 2 || oid[1] < 40))
+//@   terminates
